@@ -52,6 +52,7 @@ func c09Spaces(tier string) []pairLeg {
 		add("hostile", HostileDocs())
 		add("E2", EditStates(2, 1200))
 		add("deep", Deep(true))
+		add("mixed", Mixed())
 	} else {
 		add("A3x6", Arr(3, "6"))
 		add("A5x123", Arr(5, "123"))
@@ -63,6 +64,7 @@ func c09Spaces(tier string) []pairLeg {
 		add("U3", U(3))
 		add("hostile", thin(HostileDocs(), 220))
 		add("deep", Deep(true))
+		add("mixed", Mixed())
 		add("E1", EditStates(1, 200))
 	}
 	return legs
@@ -85,10 +87,12 @@ func init() {
 				pairs(e, "c09", l.Name, l.A, l.B)
 			}
 		},
-		Run:      runC09,
-		Required: func(string) []string { return []string{"translated/multi-hunk", "translated/single-hunk", "refused/number-like", "native-applies-elsewhere"} },
-		Assume:   []string{"RFC 6902 / 6901 evaluator in /verif/mc/ref (validated on RFC 6902 Appendix A at start-up)", "removing the root ('remove' with path \"\") is read permissively: the document becomes absent and only add \"\" may follow"},
-		Budget:   budget(4*time.Minute, 40*time.Minute),
+		Run: runC09,
+		Required: func(string) []string {
+			return []string{"translated/multi-hunk", "translated/single-hunk", "refused/number-like", "native-applies-elsewhere"}
+		},
+		Assume: []string{"RFC 6902 / 6901 evaluator in /verif/mc/ref (validated on RFC 6902 Appendix A at start-up)", "removing the root ('remove' with path \"\") is read permissively: the document becomes absent and only add \"\" may follow"},
+		Budget: budget(4*time.Minute, 40*time.Minute),
 	})
 }
 
